@@ -369,7 +369,9 @@ gproof! { #[kani::unwind(26)] fn c14_thin_hash_equal_for_equal() {
 gproof! { #[kani::unwind(4)] fn c14_thin_debug_delegates() {
     use crate::vrt::{Ip, OP_DEBUG};
     let t: ThinArc<Ip, u8> = ThinArc::from_header_and_slice(Ip(3), &[1u8, 2]);
+    vrt::ip_watch(tcw(&t));
     let ok = vrt::debug_ok(&t);
+    assert!(vrt::ip_seen_only(1));
     assert!(vrt::ip_calls(OP_DEBUG) == 1 && unsafe { vrt::IP_SELF } == vrt::addr(&t.header.header as *const Ip));
     assert!(tcnt(&t) == 1);
     core::mem::forget(t);
@@ -445,4 +447,23 @@ gproof! { fn c04_thin_with_arc_mut_clone_inside() {
     assert!(seen == n && rd(c0) == if keep { n + 1 } else { n } && tbase(&t) == b0 && rlen(&t) == len && tvalid(&t));
     assert!(vrt::ga(1) && vrt::gd(0));
     core::mem::forget(t);
+} }
+
+// @h props=C04,C14 fuc=ThinArc::hash,ThinArc::eq,ThinArc::partial_cmp note="while a ThinArc is being hashed / compared the count is what it was (no transient extra owner), symbolic count"
+gproof! { #[kani::unwind(10)] fn c04_thin_hash_and_compare_hold_no_transient_owner() {
+    use crate::vrt::Ip;
+    use core::hash::Hash;
+    let n = any_count();
+    let t: ThinArc<Ip, u8> = ThinArc::from_header_and_slice(Ip(3), &[1u8, 2]);
+    let u: ThinArc<Ip, u8> = ThinArc::from_header_and_slice(Ip(4), &[1u8, 2]);
+    set_tcnt(&t, n);
+    vrt::ip_setup(vrt::addr(&t.header.header as *const Ip), vrt::addr(&u.header.header as *const Ip));
+    vrt::ip_watch(tcw(&t));
+    let mut h = vrt::RecHasher::new();
+    t.hash(&mut h);
+    let _ = t == u;
+    let _ = t.partial_cmp(&u);
+    assert!(vrt::ip_total() >= 3 && vrt::ip_seen_only(n) && tcnt(&t) == n);
+    core::mem::forget(t);
+    core::mem::forget(u);
 } }
